@@ -333,7 +333,7 @@ func c05goatValue(src string, env map[string]c05val) string {
 }
 
 func c05run(r *report.Run) {
-	r.Rule("all expressions u0x0 op1 u1x1 .. opn unxn over 19 binary operators, prefixes {none,-,^,!}, one optional parenthesised sub-range, every int32/bool typing valid under Go's grouping; non-trivial = expression with >=2 binary operators whose Go grouping differs in structure from at least one alternative bracketing")
+	r.Rule("all expressions u0x0 op1 u1x1 .. opn unxn over 19 binary operators, prefixes {none,-,^,!}, one optional parenthesised sub-range, operands as globals / decimal, hexadecimal, octal and binary literals / function locals, every int32/bool typing valid under Go's grouping; non-trivial = expression with >=2 binary operators whose Go grouping differs in structure from at least one alternative bracketing")
 	r.Assume("go/parser is the reference for grouping; native Go int32/bool arithmetic in the harness is the reference for values", "operands are distinct identifiers bound as globals; `a &^ b` is accepted as `a & ^b` (same value)")
 	thorough := r.Tier == "thorough"
 	var jobs []c05job
@@ -442,7 +442,7 @@ func c05run(r *report.Run) {
 						// the same expression with the operands written as literals, and as locals of a function
 						// (different instruction windows: PUSH/CONST and LOCALGET instead of GLOBALGET)
 						if used <= 2 {
-							for _, mode := range []string{"literals", "locals"} {
+							for _, mode := range []string{"literals", "locals", "hex", "octal", "binary"} {
 								src2 := c05respell(j.src, env, names, mode)
 								g2 := c05evalSrc(src2)
 								r.Eval(1)
@@ -640,12 +640,33 @@ func c05respell(src string, env map[string]c05val, names []string, mode string) 
 		if v.t == tBool {
 			return fmt.Sprint(v.b)
 		}
-		if v.i < 0 {
-			return fmt.Sprintf("(%d)", v.i) // a negative literal operand needs parentheses to stay one operand
+		abs := int64(v.i)
+		if abs < 0 {
+			abs = -abs
 		}
-		return fmt.Sprint(v.i)
+		var text string
+		switch mode {
+		case "hex":
+			text = fmt.Sprintf("0X%x", abs)
+		case "octal":
+			text = fmt.Sprintf("0%o", abs)
+			if abs == 0 {
+				text = "0"
+			}
+		case "binary":
+			text = fmt.Sprintf("0b%b", abs)
+			if abs > 255 {
+				text = fmt.Sprintf("0o%o", abs)
+			}
+		default:
+			text = fmt.Sprint(abs)
+		}
+		if v.i < 0 {
+			return "(-" + text + ")" // a negative literal operand needs parentheses to stay one operand
+		}
+		return text
 	}
-	if mode == "literals" {
+	if mode != "locals" {
 		var b strings.Builder
 		for i := 0; i < len(src); i++ {
 			ch := src[i]
